@@ -60,11 +60,20 @@ def open_info(c):
 
 # ---- (a) effect order of XMLScorePartwise.write
 def write_effects():
-    f = find_func(parse('musicxml/xmlelement/xmlelement.py'), 'XMLScorePartwise', 'write')
+    mod = parse('musicxml/xmlelement/xmlelement.py')
+    f = find_func(mod, 'XMLScorePartwise', 'write')
     if f is None:
         raise Fail('XMLScorePartwise.write not found')
     eff = []
     doc_vars = set()
+    # module-level names bound exactly once, to a string literal (a hoisted constant is still a constant)
+    bound = {}
+    for st in ast.walk(mod):
+        if isinstance(st, (ast.Assign, ast.AugAssign, ast.AnnAssign)):
+            for tg in (st.targets if isinstance(st, ast.Assign) else [st.target]):
+                if isinstance(tg, ast.Name):
+                    bound.setdefault(tg.id, []).append(st)
+    str_consts = {k for k, v in bound.items() if len(v) == 1 and isinstance(v[0], ast.Assign) and v[0] in mod.body and isinstance(v[0].value, ast.Constant) and isinstance(v[0].value.value, str)}
 
     def visit(stmts):
         for st in stmts:
@@ -91,7 +100,7 @@ def write_effects():
                         eff.append(('Validate',))
                     elif n == 'write':
                         a = c.args[0]
-                        if isinstance(a, ast.Constant):
+                        if isinstance(a, ast.Constant) or (isinstance(a, ast.Name) and a.id in str_consts and a.id not in doc_vars):
                             eff.append(('Write', 'const'))
                         elif isinstance(a, ast.Call) and call_name(a) in ('to_string', 'encode'):
                             eff.append(('Write', 'doc'))
@@ -314,7 +323,18 @@ def sharing_facts():
             return True
         return isinstance(fn, ast.Name) and fn.id in ('copy', 'deepcopy')
     assigns = [n for n in ast.walk(f) if isinstance(n, ast.Assign) and any(isinstance(t, ast.Attribute) and t.attr == '_child_container_tree' for t in n.targets)]
-    facts['P1_template_copied'] = bool(assigns) and all(is_copy_call(n.value) or (isinstance(n.value, ast.Constant) and n.value.value is None) for n in assigns)
+    # a local bound exactly once in the function, to a copy call, may carry the copy to the store
+    local_bind = {}
+    for n in ast.walk(f):
+        if isinstance(n, ast.Assign) and len(n.targets) == 1 and isinstance(n.targets[0], ast.Name):
+            local_bind.setdefault(n.targets[0].id, []).append(n.value)
+        elif isinstance(n, (ast.AugAssign, ast.AnnAssign, ast.For, ast.With, ast.NamedExpr)):
+            for x in ast.walk(n.target if hasattr(n, 'target') else n):
+                if isinstance(x, ast.Name) and isinstance(getattr(x, 'ctx', None), ast.Store):
+                    local_bind.setdefault(x.id, []).append(None)
+    def carries_copy(v):
+        return is_copy_call(v) or (isinstance(v, ast.Name) and len(local_bind.get(v.id, [])) == 1 and local_bind[v.id][0] is not None and is_copy_call(local_bind[v.id][0]))
+    facts['P1_template_copied'] = bool(assigns) and all(carries_copy(n.value) or (isinstance(n.value, ast.Constant) and n.value.value is None) for n in assigns)
     cc = parse('musicxml/xmlelement/xmlchildcontainer.py')
     f = find_func(cc, 'XMLChildContainer', '__copy__')
     if f is None:
